@@ -18,6 +18,8 @@ var c17Specs = []famSpec{
 	{Family: "rectilinear", FreshQ: 2500, FreshT: 80000},
 	{Family: "rand-mid", Pool: 40000, PoolQ: 2000},
 	{Family: "rand-wide", FreshQ: 2500, FreshT: 100000},
+	{Family: "rect-soup", Pool: 30000, PoolQ: 1500},
+	{Family: "rect-cavity", Pool: 30000, PoolQ: 1500},
 	{Family: "nested-small", Pool: 20000, PoolQ: 1000},
 	{Family: "nested", FreshQ: 1000, FreshT: 30000},
 	{Family: "xproc-a", FreshQ: 400, FreshT: 5000},
